@@ -97,7 +97,9 @@ func c38Cross(rec *kit.Rec, r *rig, pre *kit.PreLog) {
 		mu.Unlock()
 	}
 	var backendSeen, backendBad int64
-	r.B.Respond = func(c *rigConn, sql string) (*mysql.Result, error) {
+	// (the hook is installed and removed under the backend's lock: every fake Execute takes that
+	// lock before it reads the hook, which orders the accesses)
+	hook := func(c *rigConn, sql string) (*mysql.Result, error) {
 		if strings.HasPrefix(sql, "select 'c38x") || strings.Contains(sql, "c38x:") {
 			atomic.AddInt64(&backendSeen, 1)
 			if _, ok := c38CrossValid(sql); !ok {
@@ -112,17 +114,24 @@ func c38Cross(rec *kit.Rec, r *rig, pre *kit.PreLog) {
 		}
 		return rigDefaultRespond(c, sql)
 	}
-	defer func() { r.B.Respond = nil }()
+	r.B.mu.Lock()
+	r.B.Respond = hook
+	r.B.mu.Unlock()
+	defer func() {
+		r.B.mu.Lock()
+		r.B.Respond = nil
+		r.B.mu.Unlock()
+	}()
 
 	// size classes of the read-buffer pool: 128 * 2^k
-	maxClass := kit.N(1<<16, 1<<20)
+	maxClass := kit.N(1<<16, 1<<19)
 	var classes []int
 	for c := 128; c <= maxClass; c *= 2 {
 		classes = append(classes, c)
 	}
 	K := 8
-	Q := kit.N(24, 120)
-	M := kit.N(12, 40)
+	Q := kit.N(18, 120)
+	M := kit.N(8, 40)
 
 	canaries := make([]*mycli.Conn, K)
 	stmts := make([]*mycli.Stmt, K)
@@ -173,7 +182,9 @@ func c38Cross(rec *kit.Rec, r *rig, pre *kit.PreLog) {
 	}
 
 	t0 := time.Now()
+	classWall := map[string]string{}
 	for _, class := range classes {
+		tc := time.Now()
 		// before: truncated-then-disconnect clients of this class
 		for i := 0; i < M; i++ {
 			hostile(class, i)
@@ -199,8 +210,12 @@ func c38Cross(rec *kit.Rec, r *rig, pre *kit.PreLog) {
 			go func(sid, class int) {
 				defer cw.Done()
 				q := Q
-				if class >= 1<<18 {
-					q = Q / 6
+				if class > 1<<14 {
+					// the cost of a statement grows with its length (race build, 8 at a time: ~0.5 s at 64 KiB, ~12 s at 512 KiB)
+					q = Q * (1 << 14) / class
+					if q < 3 {
+						q = 3
+					}
 				}
 				for n := 0; n < q; n++ {
 					// payload = 1 command byte + text: keep it inside this size class
@@ -220,18 +235,22 @@ func c38Cross(rec *kit.Rec, r *rig, pre *kit.PreLog) {
 		go func() { cw.Wait(); close(done) }()
 		select {
 		case <-done:
-		case <-time.After(4 * c38Watchdog):
-			report(c38CrossProblem{Kind: "canary-stuck", Size: class, Detail: "concurrent canaries did not finish their statements of this size class within the watchdog"})
+		case <-time.After(20 * c38Watchdog):
+			// a session that does not answer makes its canary fail with an i/o timeout (reported as
+			// canary-io-error); this watchdog only fires when the whole phase is too slow
+			rec.Inconclusive(fmt.Sprintf("cross-session phase: canaries did not finish size class %d within the watchdog", class))
 			close(stop)
 			wg.Wait()
 			goto out
 		}
+		classWall[fmt.Sprint(class)] = fmt.Sprintf("%.1fs", time.Since(tc).Seconds())
 		close(stop)
 		wg.Wait()
 	}
 out:
 	rec.Set("cross_wall_s", time.Since(t0).Seconds())
 	rec.Set("cross_size_classes", classes)
+	rec.Set("cross_class_wall", classWall)
 	rec.Set("cross_backend_statements_checked", atomic.LoadInt64(&backendSeen))
 	if atomic.LoadInt64(&backendSeen) == 0 {
 		rec.Inconclusive("cross-session phase: the fake backend saw no canary statement")
